@@ -128,13 +128,21 @@ class Oracle:
             b, i = unhx(t[1]), int(t[2])
             return "ok %d" % (b[i] if i < len(b) else 0)
         buf, off = unhx(t[1]), int(t[2])
+        mf = re.fullmatch(r"p\.(add|f)_([au])f(16|32|64)", op)
+        if mf and mf.group(1) == "f":           # fetch_*_f16/32/64: the W bits at the cursor, zero extended, as a float
+            if mf.group(2) == "a" and off % 8:
+                return None
+            w = int(mf.group(3))
+            return f"ok {hx(self.field(buf, len(buf), off, w).to_bytes(w // 8, 'little'))} {off + w}"
         if op.startswith("p.add") or op == "p.pad":
             if le(buf) >> off:                  # invariant: nothing at or above the cursor
                 return None
             aligned = op.startswith(("p.add_a",))
             if aligned and off % 8:
                 return None
-            if op in ("p.add_ubytes", "p.add_abytes"):
+            if mf:                              # add_*_f16/32/64: exactly the IEEE 754 pattern of the value, whatever came before
+                n, val = int(mf.group(3)), float_arg_bits(int(mf.group(3)), t[3])
+            elif op in ("p.add_ubytes", "p.add_abytes"):
                 v = unhx(t[3]); n = len(v) * 8; val = le(v)
             elif op in ("p.add_ubits", "p.add_abits"):
                 bits = "" if t[3] == "-" else t[3]; n = len(bits); val = int(bits[::-1], 2) if bits else 0
@@ -693,6 +701,98 @@ def run_cpp(ctx, drv):
 
 
 # ---------------------------------------------------------------------------------------------------- Python
+import struct
+
+FLOAT_FMT = {16: "<e", 32: "<f", 64: "<d"}
+
+
+def ref_pack(w, x):
+    """IEEE 754 little-endian pattern of a Python float at width w (reference: the interpreter's own struct; a finite value
+    beyond the range becomes an infinity, as the support library documents)"""
+    try:
+        return struct.pack(FLOAT_FMT[w], x)
+    except OverflowError:
+        return struct.pack(FLOAT_FMT[w], float("inf") if x > 0 else float("-inf"))
+
+
+def float_arg(w, arg):
+    """the Python float a request denotes: `<hex>` = pattern at width w, `d:<hex>` = binary64 pattern (to be converted)"""
+    if arg.startswith("d:"):
+        return struct.unpack("<d", int(arg[2:], 16).to_bytes(8, "little"))[0]
+    return struct.unpack(FLOAT_FMT[w], int(arg, 16).to_bytes(w // 8, "little"))[0]
+
+
+def float_arg_bits(w, arg):
+    return le(ref_pack(w, float_arg(w, arg)))
+
+
+def float_patterns(w):
+    """special patterns of width w (only those the interpreter's struct round-trips bit for bit, e.g. no signalling NaNs
+    where the conversion through binary64 quiets them)"""
+    e, m = {16: (5, 10), 32: (8, 23), 64: (11, 52)}[w]
+    sign, emax = 1 << (w - 1), ((1 << e) - 1) << m
+    base = [0, 1, (1 << m) - 1, 1 << m, (1 << m) + 1, ((1 << (e - 1)) - 1) << m, (((1 << (e - 1)) - 1) << m) | (1 << (m - 1)),
+            emax - (1 << m) + ((1 << m) - 1), emax, emax | (1 << (m - 1)), emax | (1 << (m - 1)) | 5, emax | (1 << (m - 1)) | ((1 << (m - 1)) - 1)]
+    out = []
+    for b in base:
+        for v in (b, b | sign):
+            raw = v.to_bytes(w // 8, "little")
+            if struct.pack(FLOAT_FMT[w], struct.unpack(FLOAT_FMT[w], raw)[0]) == raw:
+                out.append(v)
+    return out
+
+
+def py_float_cases(ctx):
+    """The float wrappers add_*_f16/32/64 / fetch_*_f16/32/64.  The ORDER of these requests matters: they are executed one
+    after the other in one interpreter (state that survives between calls, e.g. a cache keyed on float equality where
+    0.0 == -0.0, must not influence a result), so every special value is followed by its negation and vice versa,
+    forwards, backwards, repeated, and in seeded random orders."""
+    rng = ctx.rng
+    out = []
+    rounds = 2 if ctx.quick else 6
+    for w in (16, 32, 64):
+        pats = float_patterns(w)
+        seqs = [pats, pats[::-1], [p ^ (1 << (w - 1)) for p in pats], pats + pats]
+        for _ in range(rounds):
+            sh = list(pats)
+            rng.shuffle(sh)
+            seqs.append(sh)
+        for seq in seqs:
+            for v in seq:
+                off = rng.choice([0, 8, 16, 3, 5, 13])
+                nb = (off + w + 7) // 8 + 1
+                hs = hx(ser_buf(rng, nb, off, 2))
+                kind = "a" if off % 8 == 0 and rng.random() < 0.6 else "u"
+                out.append((f"p.add_{kind}f{w} {hs} {off} {v:x}", "float-seq"))
+                # read the same pattern back from an arbitrary position (also past the end: zero extension)
+                raw = (le(patterns(rng, nb, 2)) & ~(((1 << w) - 1) << off)) | (v << off)
+                hd = hx((raw & ((1 << (8 * nb)) - 1)).to_bytes(nb, "little"))
+                out.append((f"p.f_{kind}f{w} {hd} {off}", "float-seq"))
+        # values that are converted (binary64 -> narrower): rounding, overflow to infinity, underflow to signed zero
+        if w < 64:
+            for x in (0.1, -0.1, 1e-50, -1e-50, 1e300, -1e300, 65504.0, 65520.0, -65520.0, 3.4028235677973366e38, 1.0 + 2 ** -11,
+                      2 ** -24, 2 ** -25, -(2 ** -25), 2 ** -149, 2 ** -150, -(2 ** -150)):
+                d = le(struct.pack("<d", x))
+                for off in (0, 3):
+                    hs = hx(ser_buf(rng, (off + w + 7) // 8 + 1, off, 2))
+                    out.append((f"p.add_uf{w} {hs} {off} d:{d:x}", "float-seq"))
+                    # ... and its negation right after it
+                    out.append((f"p.add_uf{w} {hs} {off} d:{d ^ (1 << 63):x}", "float-seq"))
+    return out
+
+
+def py_model_line(line):
+    """The float wrappers are `struct.pack` (an external function, parameter of the model) followed by add_*_bytes, and
+    fetch_*_bytes followed by `struct.unpack`: the model is asked for the byte-level operation."""
+    t = line.split(" ")
+    m = re.fullmatch(r"p\.(add|f)_([au])f(16|32|64)", t[0])
+    if not m:
+        return line
+    w = int(m.group(3))
+    if m.group(1) == "add":
+        return f"p.add_{m.group(2)}bytes {t[1]} {t[2]} {hx(ref_pack(w, float_arg(w, t[3])))}"
+    return f"p.f_{m.group(2)}bytes {t[1]} {t[2]} {w // 8}"
+
 
 def ser_buf(rng, nbytes, off, k):
     """a serializer buffer of nbytes with arbitrary content below the cursor and zeros from the cursor on"""
@@ -788,6 +888,7 @@ def py_cases(ctx):
             out.append((f"p.add_uu {hs} {min(off, big * 8)} {-val - 1} {n}", "rnd"))
         else:               # value wider than the field: truncated
             out.append((f"p.add_uu {hs} {min(off, big * 8)} {rng.getrandbits(n + 9)} {n}", "rnd"))
+    out += py_float_cases(ctx)
     return out, nexh, nrand
 
 
@@ -848,6 +949,16 @@ class PyImpl:
         if op == "p.byte":
             return "ok %d" % ns.ZeroExtendingBuffer([memoryview(unhx(t[1]))]).get_byte(int(t[2]))
         buf, off = unhx(t[1]), int(t[2])
+        mf = re.fullmatch(r"p\.(add|f)_([au])f(16|32|64)", op)
+        if mf:
+            w, al = int(mf.group(3)), "aligned" if mf.group(2) == "a" else "unaligned"
+            if mf.group(1) == "add":
+                s = self.ser(buf, off)
+                getattr(s, f"add_{al}_f{w}")(float_arg(w, t[3]))
+                return f"ok {hx(bytes(s._buf))} {s._bit_offset}"
+            d = self.de(buf, off)
+            x = getattr(d, f"fetch_{al}_f{w}")()
+            return f"ok {hx(struct.pack(FLOAT_FMT[w], x))} {d._bit_offset}"
         if op.startswith("p.add") or op == "p.pad":
             s = self.ser(buf, off)
             if op == "p.add_ubytes": s.add_unaligned_bytes(arr(t[3]))
@@ -894,7 +1005,7 @@ def run_py(ctx, drv):
     impl = PyImpl(ctx)
     ctx.extra.setdefault("domain", {})["py"] = {"corpus": len(corpus), "exhaustive_cases": nexh, "random_cases": nrand,
                                                 "requests": len(lines), "numpy": impl.np.__version__}
-    model = drv.ask(lines, timeout=1500) if drv else [None] * len(lines)
+    model = drv.ask([py_model_line(l) for l in lines], timeout=1500) if drv else [None] * len(lines)
     ncontract = nfail = 0
     for line, st, m in zip(lines, streams, model):
         a = impl.answer(line)
